@@ -225,7 +225,8 @@ double cmb_datasummary_skewness(const struct cmb_datasummary *dsp)
         /* Estimate population skewness (not defined for samples that are all
          * equal: 0/0, an invalid operation that traps inside a process) */
         const double dn = (double)dsp->count;
-        const double g = sqrt(dn) * dsp->m3 / pow(dsp->m2, 1.5);
+        /* m3 / m2^1.5, without forming a power of m2 that may underflow */
+        const double g = sqrt(dn) * (dsp->m3 / dsp->m2) / sqrt(dsp->m2);
 
         /* Correction for finite sample */
         r = sqrt(dn * (dn - 1.0)) * g / (dn - 2.0);
@@ -245,7 +246,8 @@ double cmb_datasummary_kurtosis(const struct cmb_datasummary *dsp)
         /* Estimate population excess kurtosis (not defined for samples that
          * are all equal, see above) */
         const double dn = (double)dsp->count;
-        const double g = dn * dsp->m4 / (dsp->m2 * dsp->m2) - 3.0;
+        /* m4 / m2^2, likewise */
+        const double g = dn * (dsp->m4 / dsp->m2) / dsp->m2 - 3.0;
 
         /* Correction for finite sample */
         r = (dn - 1.0) / ((dn - 2.0) * (dn - 3.0)) * ((dn + 1.0) * g + 6.0);
